@@ -1494,7 +1494,10 @@ def fold(t, assume, discr=None, helpers=None, evalcalls=None):
                             return o
                         if c_ == ("lit", False):
                             return ("variant", str(o[1]).rsplit("::", 1)[0] + "::None")
-            return ("call", t[1], args)
+            r_ = ("call", t[1], args)
+            if r_ in assume and r_ != t:
+                return f(assume[r_])       # an assumption stated on the folded form of the call
+            return r_
         if h == "ctor":
             return ("ctor", t[1], tuple(f(x) for x in t[2]))
         if h == "struct":
@@ -1508,7 +1511,10 @@ def fold(t, assume, discr=None, helpers=None, evalcalls=None):
             iv = sym_int(i_)
             if a_[0] == "arr" and iv is not None and 0 <= iv < len(a_) - 1:
                 return a_[1 + iv]
-            return ("index", a_, i_)
+            r_ = ("index", a_, i_)
+            if r_ in assume and r_ != t:
+                return f(assume[r_])
+            return r_
         if h == "closure":
             return ("closure", t[1], f(t[2]))
         return (h,) + tuple(f(x) if isinstance(x, tuple) else x for x in t[1:])
@@ -1655,6 +1661,21 @@ def eval_returns(body, sym, assume, discr=None, helpers=None, evalcalls=None, ta
         return None, "%d return paths taken" % len(fired)
     l, w = fired[0]
     return fold(wrap_value(sym(l), w), assume, discr, helpers, evalcalls), None
+
+
+def all_leaves_false(t):
+    """a folded condition that is `false` on every branch of the if / match structure that is still undecided"""
+    if t == ("lit", False):
+        return True
+    if isinstance(t, tuple) and t and t[0] == "if" and len(t) == 4:
+        return all_leaves_false(t[2]) and all_leaves_false(t[3])
+    if isinstance(t, tuple) and t and t[0] == "match":
+        return all(all_leaves_false(b) for _, _, b in t[2])
+    if isinstance(t, tuple) and t and t[0] == "bin" and t[1] == "&&":
+        return all_leaves_false(t[2]) or all_leaves_false(t[3])
+    if isinstance(t, tuple) and t and t[0] == "nomatch":
+        return True
+    return False
 
 
 def lift_ifs(t, limit=64):
